@@ -319,6 +319,7 @@ type fragSpec struct {
 	styp      bool
 	optimize  bool // OptimizeTrun on every fragment: moves common values into tfhd defaults
 	trackID   uint32
+	noInit    bool // resegmenter input without ftyp/moov (trex defaults unknown to the tool)
 }
 
 func fullSampleOf(s flat) mp4.FullSample {
